@@ -34,6 +34,60 @@ def finding_class(row, binding):
     return None
 
 
+def harness_rows(tier, seed, n=None, race=False):
+    work = C.scratch("gvcel")
+    try:
+        cmd = [os.path.join(C.BIN, "harness"), "cel", tier, str(seed), work, os.path.join(C.BIN, "govalid"), C.REPO]
+        if n is not None or race:
+            cmd += [str(n if n is not None else (1200 if tier == "thorough" else 150))]
+        if race:
+            cmd += ["race"]
+        p = subprocess.run(cmd, stdout=subprocess.PIPE, stderr=subprocess.PIPE, text=True, env=C.goenv())
+        if p.returncode != 0:
+            raise RuntimeError("harness cel failed: " + p.stderr[-3000:])
+        return [json.loads(l) for l in p.stdout.split("\n") if l.strip()]
+    finally:
+        shutil.rmtree(work, ignore_errors=True)
+
+
+def ctx_check(res):
+    """C15 on structs with CEL rules (incl. a struct-typed field carrying a no-op `required` next to the cel rule):
+    an already cancelled context must yield context.Canceled — every such struct has a validated field."""
+    rows = [r for r in harness_rows(res.tier, res.seed, n=(200 if res.tier == "thorough" else 0)) if "id" in r]
+    bad = [r for r in rows if r.get("builds") and r.get("ctx") != "canceled"]
+    res.cov["distribution"]["cel-structs:cancelled-context-observed"] = sum(1 for r in rows if r.get("builds"))
+    res.cov["evaluations"] += sum(1 for r in rows if r.get("builds"))
+    if bad:
+        r = bad[0]
+        res.violation("ctx-cel", {"kind": "ctx-cel", "what": "ValidateContext with an already cancelled context returned %s instead of context.Canceled" % r.get("ctx"),
+                                  "type": r["ftype"], "expression": r["expr"], "extra_markers": r.get("extra", ""), "source": r.get("source", ""), "count": len(bad)}, True)
+        return False
+    return True
+
+
+def race_check(res):
+    """C16: the compiled CEL checks (incl. matches() with a pattern taken from another field) validated from 8
+    goroutines at once under the race detector."""
+    rows = harness_rows(res.tier, res.seed, n=(300 if res.tier == "thorough" else 30), race=True)
+    mutated = [r for r in rows if "id" in r and "mutated" in (r.get("obs") or [])]
+    if mutated:
+        r = mutated[0]
+        i = r["obs"].index("mutated")
+        res.violation("mut", {"kind": "mut", "what": "Validate() changed its receiver (deep rendering before and after differs)", "type": r["ftype"], "expression": r["expr"],
+                              "binding": r["values"][i], "emitted_condition": r.get("cond", ""), "source": r.get("source", ""), "count": len(mutated)}, True)
+        return False
+    rr = [r["race"] for r in rows if "race" in r]
+    if not rr:
+        raise RuntimeError("cel race run produced no verdict")
+    res.cov["distribution"]["cel-structs:raced-packages"] = rr[0]["packages"]
+    res.cov["evaluations"] += rr[0]["packages"]
+    if not rr[0]["ok"]:
+        res.violation("race", {"kind": "race", "what": "the race detector reported a data race (or the run failed) while 8 goroutines validated the same CEL-bearing structs concurrently",
+                               "detail": rr[0]["detail"][-6000:]}, True)
+        return False
+    return True
+
+
 def run(res):
     theorems = ["Props.c10_structure", "Props.c10_core", "Props.c10_reported_iff", "Props.c10_total",
                 "Props.c10_grouping_witness", "Props.c10_grouping_witness_value"]
@@ -41,15 +95,7 @@ def run(res):
     if broken is None:
         return
     res.cov["trusted_base"] = TRUSTED
-    work = C.scratch("gvcel")
-    try:
-        p = subprocess.run([os.path.join(C.BIN, "harness"), "cel", res.tier, str(res.seed), work, os.path.join(C.BIN, "govalid"), C.REPO],
-                           stdout=subprocess.PIPE, stderr=subprocess.PIPE, text=True, env=C.goenv())
-        if p.returncode != 0:
-            raise RuntimeError("harness cel failed: " + p.stderr[-3000:])
-        rows = [json.loads(l) for l in p.stdout.split("\n") if l.strip()]
-    finally:
-        shutil.rmtree(work, ignore_errors=True)
+    rows = [r for r in harness_rows(res.tier, res.seed) if "id" in r]
     # ---- text tie
     tie_rows = [r for r in rows if r.get("ast") and r.get("file") and r.get("cond")]
     ans = C.drive("modeldrv", ["cel\tF\t" + r["ast"] for r in tie_rows]) if model_ok and tie_rows else []
